@@ -556,6 +556,14 @@ def reference(spec: dict, p: list[float], seed: int) -> tuple[np.ndarray, tuple[
     return None
 
 
+def _vlg_selects_a_location(logits: list[float]) -> bool:
+    """One location parameter exceeds all others by a clear margin."""
+    if len(logits) <= 1:
+        return True
+    srt = sorted(logits, reverse=True)
+    return srt[0] - srt[1] >= 0.2
+
+
 def _vlg_saturated(spec: dict, state: dict, seed: int) -> list[list[float]]:
     """Parameter points at which exactly one location is selected."""
     inner = GR.build(spec['args'][0]['$gate'])
@@ -702,7 +710,15 @@ def judge(item: dict) -> tuple[list[tuple[str, str]], dict]:
         return c.v, c.stats
     pts = points(state['num_params'], seed, thorough, bool(item.get('light')))
     if cls == 'VariableLocationGate':
-        pts = _vlg_saturated(spec, state, seed) + pts
+        # The gate is the unitary closest to a convex combination of
+        # placements; where the largest location parameters tie, that
+        # combination is (numerically) singular and the projection is not
+        # well defined (two evaluations of the same formula differ by
+        # rounding/sigma_min).  Such points are outside what is judged.
+        ni = state['num_params'] - len(GR.decode(spec['args'][1]))
+        keep = [q for q in pts if _vlg_selects_a_location(q[ni:])]
+        c.n('points_skipped_location_parameters_tie', len(pts) - len(keep))
+        pts = _vlg_saturated(spec, state, seed) + keep
     c.n('points', len(pts))
     for k, p in enumerate(pts):
         clause_point(g, p, c, k, state)
